@@ -51,13 +51,28 @@ def strategy_(draw, tier):
     g["chroms"] = [{"name": "c%d" % i, "nodes": sorted(c)} for i, c in enumerate(graphalgo.components(g["nodes"], adj))]
     extra = c08.tag_graph(g)
     gfa = gen_graph.gfa_text(g, with_seq=True, extra_tags=extra, order_seed=draw(st.integers(0, 99)))
+    if draw(st.integers(0, 4)) == 0:
+        gfa = gfa[:-1]  # the last record is not newline-terminated
     lines = base["gaf"]
     f0 = [x for x in lines[0].split("\t") if not x.startswith("tp:A:")]
     f0[11] = "60"  # at least one primary record, so that stat has something to average
     lines[0] = "\t".join(f0)
-    big = tier == "thorough" and draw(st.integers(0, 9)) == 0
+    big = draw(st.integers(0, 19 if tier == "quick" else 9)) == 0
     if big:
         lines = [l + "\tzq:Z:" + "k" * draw(st.integers(4000, 9000)) for l in lines]
+        # boundaries are where chunked readers go wrong: let one record end exactly on a power-of-two /
+        # BGZF block-size boundary of the uncompressed stream
+        target = draw(st.sampled_from([65536, 65280, 131072, 32768]))
+        pos = 0
+        for k_, l in enumerate(lines):
+            end = pos + len(l) + 1
+            if end > target - 6 and pos + 40 < target:
+                need = target - pos - 1
+                lines[k_] = (l + "\tzr:Z:")[:need] if len(l) + 6 > need else l + "\tzr:Z:" + "j" * (need - len(l) - 6)
+                break
+            if end <= target and k_ == len(lines) - 1:
+                lines[k_] = l + "\tzr:Z:" + "j" * (target - end - 6)
+            pos = end
     size = sum(len(l) + 1 for l in lines)
     cuts = sorted(set(draw(st.lists(st.integers(1, size - 1), min_size=1, max_size=6))))
     ids = list(g["nodes"])
@@ -257,4 +272,13 @@ def run_case(case):
     if straddle:
         cl.append("line_straddles_block")
     cl.append("gaf_blocks:%d" % min(len(bounds) + 1, 5))
+    ends = set()
+    p_ = 0
+    for l in case["gaf"]:
+        p_ += len(l) + 1
+        ends.add(p_)
+    if ends & {65536, 65280, 131072, 32768}:
+        cl.append("record_ends_on_64KiB_or_block_boundary")
+    if not case["gfa"].endswith("\n"):
+        cl.append("graph_without_final_newline")
     return core.Result(after and straddle, cl)
